@@ -77,7 +77,11 @@ namespace RecInt
         rmint(const rmint<K, MGI>& c) : Value(c.Value) { to_mg(*this); }
         rmint(const rmint<K, MGA>& c) : Value(c.Value) {}
         template <typename T, __RECINT_IS_UNSIGNED(T, int) = 0> rmint(const T b) : Value(b) { to_mg(*this); }
-        template <typename T, __RECINT_IS_SIGNED(T, int) = 0>   rmint(const T b) : Value((b < 0)? -b : b)
+        template <typename T, typename std::enable_if<std::is_signed<T>::value && std::is_integral<T>::value, int>::type = 0>
+        rmint(const T b) : Value(b) // |b| is taken on the ruint: -b overflows in T for the most negative value
+        { if (b < 0) Value = -Value; mod_n(Value, p); if (b < 0) sub(Value, p, Value); to_mg(*this); }
+        template <typename T, typename std::enable_if<std::is_floating_point<T>::value, int>::type = 0>
+        rmint(const T b) : Value((b < 0)? -b : b)
         { mod_n(Value, p); if (b < 0) sub(Value, p, Value); to_mg(*this); }
 
         rmint<K, MGA>& random();
